@@ -40,6 +40,11 @@ type seqExec struct {
 	gcEvents                       []gcEvent
 	fsHook                         func(g *Gen, ev *simrt.FSEvent)
 	inflight                       *Op
+	inflightT                      *Op          // C07: write in flight on the traffic connection during a pass
+	gcWritten                      map[int]bool // C07: keys written by the traffic connection during the current pass
+	exited                         bool         // the harness ended the process (shutdown during GC)
+	closingInGC                    bool         // C07: a clean shutdown was started while a pass was running
+	gcHold                         func() bool  // C07: the main client stays parked (a shutdown is in progress)
 	nontrivial                     *bool
 	noFinalRestart                 bool
 	gcHook                         func(phase string, op Op, begin, end int)
@@ -241,13 +246,13 @@ func runSeqHooked(plan *Plan, tape *simrt.Tape, setup func(x *seqExec), post fun
 		case simrt.StatusFatal, simrt.StatusPanic, simrt.StatusDeadlock:
 			if x.viol == nil {
 				rule := "R-" + simrt.StatusName(res.Status)
-				if closing {
+				if closing || x.closingInGC {
 					rule = "R-close-failed"
 				}
 				x.fail(rule, fmt.Sprintf("process ended with %s (closing=%v): %s %v\n%s", simrt.StatusName(res.Status), closing, res.Msg, res.Blocked, trunc(res.Stack, 1500)))
 			}
 		}
-		if x.viol != nil || out.Inconclusive != "" {
+		if x.viol != nil || out.Inconclusive != "" || x.exited {
 			break
 		}
 		if !finished {
@@ -951,13 +956,13 @@ func (x *seqExec) doGC(op Op) {
 	before := snapshotDataFiles(bdir)
 	head, sizes, _ := g.H.VerifHead(b)
 	_ = sizes
-	nTasks := g.W.NumTasks()
 	x.inGC = true
 	x.gcEvents = nil
-	g.W.TagNext = "gc"
 	if x.gcHook != nil {
 		x.gcHook("before", op, 0, 0)
 	}
+	nTasks := g.W.NumTasks()
+	g.W.TagNext = "gc"
 	begin, end, err := gcRequest(g, x.plan.Cfg.GCWeb, b, op.GCStart, op.GCEnd, op.GCDays, op.Merge, op.Pretend)
 	if x.plan.Cfg.GCWeb {
 		x.out.probe("gc-request-via-web-handler")
@@ -982,8 +987,16 @@ func (x *seqExec) doGC(op Op) {
 		}
 		return
 	}
-	ok := g.W.WaitCondTimeout("gc-done", 2*time.Hour, func() bool { return g.W.TasksDone("store.gcMgr.gc", nTasks) })
+	ok := g.W.WaitCondTimeout("gc-done", 2*time.Hour, func() bool {
+		return g.W.TasksDone("store.gcMgr.gc", nTasks) && (x.gcHold == nil || !x.gcHold())
+	})
+	if os.Getenv("VERIF_DEBUG") != "" {
+		fmt.Fprintf(os.Stderr, "MAIN resumes after gc wait: ok=%v step=%d hold=%v now=%v\n", ok, g.W.Steps(), x.gcHold != nil && x.gcHold(), g.W.Now())
+	}
 	x.inGC = false
+	if x.gcWritten != nil {
+		g.W.WaitCond("traffic-idle", func() bool { return x.inflightT == nil })
+	}
 	if !ok {
 		x.fail("R-gc-hang", fmt.Sprintf("%s did not finish within 2 simulated hours", op))
 		return
